@@ -7,7 +7,7 @@
   The table of the parser is tied to src/delta/parser.rs by the correspondence run of checks/c15.py, which
   compares the exact sequence of node variants on every input the lexer accepts.
 -/
-import PenneModel.Flat.Check
+import PenneModel.Flat.Term
 
 namespace Flat
 
@@ -236,5 +236,116 @@ theorem cursor_bound (body : List Kind) (fuel budget : Nat) :
     (by simp [initState])
   simp only [List.length_append, List.length_cons, List.length_nil]
   omega
+
+/-! ### termination -/
+
+/-- rank of each nonterminal: a call that is not preceded by consumption goes to a smaller rank -/
+def rankList : List Nat :=
+  [1, 0, 0, 0, 0, 0, 0, 0, 0, 1,      -- decl .. fnBodyLoop
+   1, 0, 5, 0, 1, 5, 4, 1, 0, 2,      -- blockLoop stmt argsLoop structuralLoop then comparison expr addLoop bitwiseRest bwAmp
+   2, 2, 0, 3, 0, 2, 0, 1, 0, 1,      -- bwPipe bwCaret shiftRest mult multLoop singular asLoop unary primary reference
+   0, 0, 0, 5, 0]                     -- stepsLoop ampLoop strLoop arrayLoop assignRest
+
+/-- nonterminals that consume at least one token whenever they end normally -/
+def dcList : List Bool :=
+  [true, true, false, false, false, false, false, true, true, false,
+   false, true, false, false, true, true, true, false, false, false,
+   false, false, false, true, false, true, false, true, true, false,
+   false, false, false, false, false]
+
+def rankOf (nt : Nat) : Nat := rankList.getD nt 0
+def dcOf (nt : Nat) : Bool := dcList.getD nt false
+
+theorem term_checked_small : ∀ nt, nt < numNT → checkTerm rankOf dcOf table nt = true := by decide +kernel
+
+theorem rankOf_lt (nt : Nat) : rankOf nt < 6 := by
+  unfold rankOf
+  by_cases h : nt < numNT
+  · revert nt; decide
+  · unfold numNT at h
+    rw [List.getD_eq_getElem?_getD, List.getElem?_eq_none (by simpa [rankList] using h)]
+    decide
+
+/-- every nonterminal of the parser table is ranked: each call happens after a token was consumed, or goes to a
+    smaller rank -/
+theorem term_checked : ∀ nt, checkTerm rankOf dcOf table nt = true := by
+  intro nt
+  by_cases h : nt < numNT
+  · exact term_checked_small nt h
+  · have h' : numNT ≤ nt := by omega
+    have hd : dcOf nt = false := by
+      unfold dcOf numNT at *
+      rw [List.getD_eq_getElem?_getD, List.getElem?_eq_none (by simpa [dcList] using h')]
+      rfl
+    simp [checkTerm, table_default nt h', walk, hd]
+
+theorem getD_len_eos (ts : List Kind) : ts.getD ts.length .EndOfSource = .EndOfSource := by
+  rw [List.getD_eq_getElem?_getD, List.getElem?_eq_none (Nat.le_refl _)]
+  rfl
+
+/-- **no nonterminal runs out of fuel** given six frames per remaining token position -/
+theorem nt_total (ts : List Kind) (fuel : Nat) :
+    CalleeT ts.length 6 rankOf dcOf fuel (runNT ts table fuel) :=
+  runNT_total ts ts.length 6 (getD_len_eos ts) rankOf dcOf rankOf_lt table cursor_checked term_checked fuel
+
+theorem findNextFrom_le (ts : List Kind) (p : Kind → Bool) : ∀ fuel i, findNextFrom ts p fuel i ≤ i + fuel := by
+  intro fuel
+  induction fuel with
+  | zero => intro i; simp [findNextFrom]
+  | succ n ih =>
+    intro i
+    simp only [findNextFrom]
+    split
+    · split
+      · omega
+      · have := ih (i + 1); omega
+    · omega
+
+theorem parseLoop_total (ts : List Kind) (fuel : Nat) (hf : 6 * ts.length + 2 ≤ fuel) :
+    ∀ budget s d es, s.cur ≤ ts.length + 1 → (parseLoop ts fuel budget s d es false).2.2.2.2 = false := by
+  intro budget
+  induction budget with
+  | zero => intro s d es _; simp [parseLoop]
+  | succ n ih =>
+    intro s d es hs
+    simp only [parseLoop]
+    split
+    · rfl
+    · rename_i hpeek
+      have hp : peek ts { s with lim := ts.length } ≠ .EndOfSource := by simpa using hpeek
+      have hlt : s.cur < ts.length := by
+        have := peek_lt ts (E := ts.length) (getD_len_eos ts) (s := { s with lim := ts.length })
+        by_cases hle : s.cur ≤ ts.length
+        · exact this hle hp
+        · exfalso; apply hp; unfold peek; simp only; split
+          · omega
+          · rfl
+      have hnt := nt_total ts fuel nDecl 0 { s with lim := ts.length } (by simp only; omega)
+        (by
+          have h1 : ts.length - s.cur ≤ ts.length := by omega
+          have h2 : 6 * (ts.length - s.cur) ≤ 6 * ts.length := Nat.mul_le_mul_left 6 h1
+          have h3 : rankOf nDecl = 1 := by decide
+          simp only [h3]; omega)
+      cases hr : runNT ts table fuel nDecl 0 { s with lim := ts.length } with
+      | mk r s' =>
+        rw [hr] at hnt
+        obtain ⟨hnf, _, hup, _⟩ := hnt
+        have hnext : findNext ts startsDeclaration s'.cur ≤ ts.length + 1 := by
+          unfold findNext
+          have := findNextFrom_le ts startsDeclaration (ts.length - s'.cur) s'.cur
+          simp only at hup
+          omega
+        cases r with
+        | ok => exact ih _ _ _ hnext
+        | err e pos => exact ih _ _ _ hnext
+        | fuel => exact absurd rfl hnf
+
+/-- **C15, termination.**  On every list of token kinds the parser model finishes every declaration within its
+    fuel: the recursion always consumes input. -/
+theorem parse_total (ts : List Kind) : (parseAll ts).outOfFuel = false := by
+  unfold parseAll parseAllWith
+  have := parseLoop_total ts (6 * ts.length + 8) (by omega) ((ts.filter startsDeclaration).length + 2) (initState ts) 0 []
+    (by simp [initState])
+  simpa using this
 
 end Flat
